@@ -176,7 +176,7 @@ pub fn check_case(es: &[SEntry], c: Compression, ls: LeafSize, api: Api, p: u64)
 pub fn run(tier: &str) -> i32 {
     let rep = Report::new("C06", tier, "exploration");
     let thorough = rep.thorough();
-    rep.rule("three entry-list families (dense small deltas; far-apart ids; mixed runs and back-references); per family and compression the crossing point n* (full list first exceeds 16257 bytes) is located by bisection and EVERY n in [n*-40, n*+80] is run, plus n in {0,1,2,n*/2,2n*,10n*}; x initial leaf size {default,1,7,4096,larger than the list} x 4 compressions x {sync,async} through util::write_directories(_async) at stream positions {0,127,1000}, and whole-archive writes over the same window validated by the independent reader; non-trivial = lists that do not fit; distinct = (family, n, codec, leaf size, api, position)");
+    rep.rule("three entry-list families (dense small deltas; far-apart ids; mixed runs and back-references) plus a perfectly regular one at n in {1000,16257,16258,20000,70000} (fits compressed however long) and 12-46k entries with initial leaf size 1-2 (pointer roots beyond 64 KiB); per family and compression the crossing point n* (full list first exceeds 16257 bytes) is located by bisection and EVERY n in [n*-40, n*+80] is run, plus n in {0,1,2,n*/2,2n*,10n*}; x initial leaf size {default,1,7,4096,larger than the list} x 4 compressions x {sync,async} through util::write_directories(_async) at stream positions {0,127,1000}, and whole-archive writes over the same window validated by the independent reader; non-trivial = lists that do not fit; distinct = (family, n, codec, leaf size, api, position)");
     rep.assume("whether a list 'fits' is judged by the size of the same writer flavour's own single-directory encoding");
     let mut jobs: Vec<(u32, usize, Compression, LeafSize, Api, u64)> = Vec::new();
     let mut crossings = Vec::new();
@@ -204,6 +204,13 @@ pub fn run(tier: &str) -> i32 {
                     if tiny && brotli && !(n == nstar + 1 || (thorough && n % 16 == 1)) {
                         continue;
                     }
+                    // thousands of tiny compressed leaves per doubling step cost seconds: quick keeps one n per codec
+                    if tiny && c != Compression::None && !thorough && n != nstar + 1 {
+                        continue;
+                    }
+                    if tiny && brotli && !thorough && matches!(ls, LeafSize::Size(1)) {
+                        continue;
+                    }
                     for (ai, api) in [Api::Sync, Api::Async].into_iter().enumerate() {
                         let p = [0u64, 127, 1000][(n + li + ai) % 3];
                         jobs.push((fam, n, c, ls, api, p));
@@ -212,13 +219,39 @@ pub fn run(tier: &str) -> i32 {
             }
         }
     }
+    // many tiny leaves: the pointer root itself grows beyond 64 KiB before the leaf size has doubled often enough
+    let tiny_ns: Vec<usize> = if thorough { (12_000..=19_000).step_by(250).chain([33_000usize, 46_000]).collect() } else { vec![13_000, 15_000, 17_000] };
+    for n in tiny_ns {
+        for ls in [LeafSize::Size(1), LeafSize::Size(2)] {
+            if !thorough && ls == LeafSize::Size(2) && n != 17_000 {
+                continue;
+            }
+            jobs.push((0, n, Compression::None, ls, if n % 2000 == 0 { Api::Async } else { Api::Sync }, 127));
+        }
+    }
+    // perfectly regular lists: they fit as ONE compressed root however long they are, and must not be spilled
+    for c in COMPS {
+        for n in [1000usize, 16_257, 16_258, 20_000, 70_000] {
+            if c == Compression::Brotli && n > 20_000 && !thorough {
+                continue;
+            }
+            for (ai, api) in [Api::Sync, Api::Async].into_iter().enumerate() {
+                jobs.push((3, n, c, if ai == 0 { LeafSize::Default } else { LeafSize::Size(4096) }, api, [0u64, 127][ai]));
+            }
+        }
+    }
     rep.set("window_crossings", json!(crossings));
     let res: Vec<_> = jobs
         .par_iter()
         .map(|(fam, n, c, ls, api, p)| {
+            let t0 = std::time::Instant::now();
             let es = window_entries(*fam, *n);
             let full = lib_dir_size(&es, *c);
-            (check_case(&es, *c, *ls, *api, *p), full)
+            let r = (check_case(&es, *c, *ls, *api, *p), full);
+            if std::env::var("VERIF_VERBOSE").is_ok() && t0.elapsed().as_secs_f64() > 1.0 {
+                println!("  slow: family {fam} n={n} {} leaf {} {} {:.1}s", cname(*c), ls.name(), api.name(), t0.elapsed().as_secs_f64());
+            }
+            r
         })
         .collect();
     rep.eval(jobs.len() as u64);
